@@ -14,6 +14,8 @@ import PsutilModel.Proofs.C20Two
 import PsutilModel.Proofs.C20FaultsFixed
 import PsutilModel.Proofs.C20Empty
 import PsutilModel.Proofs.C20NetIf
+import PsutilModel.Model.C20Block
+import PsutilModel.Spec.C20Block
 namespace Psutil.C20
 open Spec
 
@@ -1120,5 +1122,60 @@ theorem C20_path_probe_faults_within_spec :
       ∀ e ∈ sweptErrs p, ∀ env ∈ sweptEnvs (if site.2 = "os.path.exists" then 0 else 42),
         Spec.allowed p m.name (Spec.recoverable p m.name site.2) e env (methodFault cfg p m site.2 e env false).1 = true := by
   decide +kernel
+
+/-! ## Seeded round 5 (C20-8): a `oneshot()` block as a history — pid-state transitions between the first
+    record read of the block and the failing call, and whether the decorator's probe asks the OS afresh -/
+
+/-- **cfg_probe_fresh** (obligation on the translator fact `probeStale`). In every platform module the
+    `except` handlers of the error-translating decorators reach no memoised function and no attribute of
+    `self` (other than pid / _name / _ppid) — apart from the process-wide "does PID 0 answer" memo behind
+    OpenBSD `pids()`: the probe that decides ZombieProcess vs NoSuchProcess asks the OS afresh. -/
+theorem cfg_probe_fresh : ∀ f ∈ Family.all, probeFreshOf f = true := by decide
+
+theorem probeFreshOf_true (f : Family) : probeFreshOf f = true :=
+  cfg_probe_fresh f (by cases f <;> decide)
+
+/-- **C20_oneshot_history_irrelevant.** For every platform identity, method, native call, error, EVERY
+    history of earlier calls of the same `oneshot()` block (any length, any pid state at each of them, record
+    read or not), inside the block or just after leaving it, every pid, pid state at the failing call and
+    pid-0 listing: the outcome is the outcome of that call alone on the pid as it is NOW. -/
+theorem C20_oneshot_history_irrelevant (p : Platform) (m : Method) (call : String) (e : Err)
+    (h : List Earlier) (exited : Bool) (env : Env) (persistent : Bool) :
+    blockFault cfg probeFreshOf p m call e h exited env persistent = methodFault cfg p m call e env persistent := by
+  simp [blockFault, blockEnv, probeState, probeFreshOf_true]
+
+/-- **C20_oneshot_block_within_spec.** Hence whatever the specification allows for the call alone
+    (`C20_method_faults_within_spec_partial` and its strict forms speak about exactly those outcomes) is what
+    it allows — and what the code does — after any history of the block. -/
+theorem C20_oneshot_block_within_spec (p : Platform) (m : Method) (call : String) (e : Err)
+    (h : List Earlier) (exited : Bool) (env : Env) (persistent : Bool)
+    (hs : Spec.allowed p m.name (Spec.recoverable p m.name call) e env
+            (methodFault cfg p m call e env persistent).1 = true) :
+    Spec.allowedInBlock p m.name (Spec.recoverable p m.name call) e (h.map fun x => ⟨x.state⟩) exited env
+      (blockFault cfg probeFreshOf p m call e h exited env persistent).1 = true := by
+  rw [C20_oneshot_history_irrelevant]; exact hs
+
+/-- **C20_oneshot_cached_probe_counterexample** (what-if: the macOS probe reads the status slot through the
+    memoised record getter). `status()` while the process runs, the process dies and stays a zombie, `exe()`
+    fails with ESRCH inside the same block: NoSuchProcess — the specification allows only ZombieProcess.
+    And zombie at the first read, reaped before the failing call: ZombieProcess for a pid that is gone.
+    After `oneshot_exit()` the cache is dropped and both are right again. -/
+theorem C20_oneshot_cached_probe_counterexample :
+    let stale : Family → Bool := fun f => f != .osx
+    let m : Method := ⟨"exe", ["wrap_exceptions"]⟩
+    let e : Err := ⟨.ESRCH, none⟩
+    (blockFault cfg stale .macos m "proc_exe" e [⟨true, .alive⟩] false ⟨42, .zombie, true⟩ false).1 = .nsp 42 true ∧
+    Spec.allowedInBlock .macos "exe" (Spec.recoverable .macos "exe" "proc_exe") e [⟨.alive⟩] false ⟨42, .zombie, true⟩
+      (.nsp 42 true) = false ∧
+    (blockFault cfg stale .macos m "proc_exe" e [⟨false, .alive⟩, ⟨true, .zombie⟩] false ⟨42, .gone, true⟩ false).1
+      = .zombie 42 true ∧
+    Spec.allowedInBlock .macos "exe" (Spec.recoverable .macos "exe" "proc_exe") e [⟨.alive⟩, ⟨.zombie⟩] false
+      ⟨42, .gone, true⟩ (.zombie 42 true) = false ∧
+    (blockFault cfg stale .macos m "proc_exe" e [⟨true, .alive⟩] true ⟨42, .zombie, true⟩ false).1 = .zombie 42 true := by
+  decide +kernel
+
+/-- non-vacuity: a block history on the code as it is -/
+example : (blockFault cfg probeFreshOf .macos ⟨"exe", ["wrap_exceptions"]⟩ "proc_exe" ⟨.ESRCH, none⟩
+            [⟨true, .alive⟩] false ⟨42, .zombie, true⟩ false).1 = .zombie 42 true := by decide +kernel
 
 end Psutil.C20
